@@ -48,26 +48,25 @@ def build_harness(outdir, race=False, prop=None):
     binp = os.path.join(outdir, "drive")
     if os.path.exists(binp):
         os.remove(binp)
-    with Lock(os.path.join(VERIF, "out", ".harness.lock")):
-        try:
-            shutil.copyfile(os.path.join(REPO, "go.sum"), os.path.join(HARNESS, "go.sum"))
-        except OSError:
-            pass
-        gomod = os.path.join(HARNESS, "go.mod")
-        txt = open(gomod).read()
-        want = "replace github.com/kercylan98/minotaur => %s" % REPO
-        new = re.sub(r"replace github.com/kercylan98/minotaur => \S+", want, txt)
-        if new != txt:
-            open(gomod, "w").write(new)
-        tags = "verif" if not prop else "verif,only,only_" + prop.lower()
-        cmd = ["go", "build", "-tags", tags, "-o", binp]
-        if race:
-            cmd.insert(2, "-race")
-        cmd.append("./cmd/drive")
-        env = dict(GOENV)
-        if race:
-            env["CGO_ENABLED"] = "1"
-        rc, out = sh(cmd, cwd=HARNESS, env=env, timeout=1800)
+    # the shared harness/go.mod is never modified: every build uses its own -modfile copy whose
+    # replace directive points at REPO (several checks may run at once, also against scratch copies)
+    modfile = os.path.join(outdir, "go.mod")
+    txt = open(os.path.join(HARNESS, "go.mod")).read()
+    txt = re.sub(r"replace github.com/kercylan98/minotaur => \S+", "replace github.com/kercylan98/minotaur => %s" % REPO, txt)
+    open(modfile, "w").write(txt)
+    try:
+        shutil.copyfile(os.path.join(REPO, "go.sum"), os.path.join(outdir, "go.sum"))
+    except OSError:
+        pass
+    tags = "verif" if not prop else "verif,only,only_" + prop.lower()
+    cmd = ["go", "build", "-modfile", modfile, "-tags", tags, "-o", binp]
+    if race:
+        cmd.insert(2, "-race")
+    cmd.append("./cmd/drive")
+    env = dict(GOENV)
+    if race:
+        env["CGO_ENABLED"] = "1"
+    rc, out = sh(cmd, cwd=HARNESS, env=env, timeout=1800)
     if rc != 0:
         return None, out
     return binp, out
